@@ -70,6 +70,7 @@ func VerifC15Load() {
 	order := make([]int, n)
 	empty := make([]bool, n)
 	failing := nd.Choose(n + 1) // which loader fails, n = none
+	var all []Loader
 	for i := 0; i < n; i++ {
 		class[i] = nd.Choose(3)
 		empty[i] = nd.Bool()
@@ -86,7 +87,20 @@ func VerifC15Load() {
 			l = &vLoadPlain{base}
 		}
 		order[i] = base.o
-		c.AddLoaders(l)
+		all = append(all, l)
+	}
+	// the loaders are installed one by one, all at once, or half and half
+	switch nd.Choose(3) {
+	case 0:
+		for _, l := range all {
+			c.AddLoaders(l)
+		}
+	case 1:
+		c.SetLoaders(all...)
+		nd.Cover("installed with SetLoaders")
+	default:
+		c.SetLoaders(all[:n/2]...)
+		c.AddLoaders(all[n/2:]...)
 	}
 	err := c.Initialize()
 	// the loaders are consulted in the ordering contract's sequence
